@@ -80,6 +80,31 @@ class _Subst(ast.NodeTransformer):
     def visit_Lambda(self, n: ast.Lambda) -> ast.AST:
         return n
 
+    def visit_BoolOp(self, n: ast.BoolOp) -> ast.AST:
+        # a flag whose value is known on this path: `True and X` is X, `False and X` is False, `False or X` is X, `True or X` is True
+        n = self.generic_visit(n)   # type: ignore[assignment]
+        is_and = isinstance(n.op, ast.And)
+        vals: List[ast.AST] = []
+        for k, v in enumerate(n.values):
+            last = k == len(n.values) - 1
+            if isinstance(v, ast.Constant) and isinstance(v.value, bool):
+                if v.value is is_and and not last:
+                    continue            # neutral element in a non-final position
+                if v.value is not is_and:
+                    vals.append(v)      # absorbing element: nothing after it is evaluated
+                    break
+            vals.append(v)
+        if len(vals) == 1:
+            return vals[0]
+        n.values = vals
+        return n
+
+    def visit_UnaryOp(self, n: ast.UnaryOp) -> ast.AST:
+        n = self.generic_visit(n)   # type: ignore[assignment]
+        if isinstance(n.op, ast.Not) and isinstance(n.operand, ast.Constant) and isinstance(n.operand.value, bool):
+            return ast.copy_location(ast.Constant(value=not n.operand.value), n)
+        return n
+
     def visit_Subscript(self, n: ast.Subscript) -> ast.AST:
         n = self.generic_visit(n)   # type: ignore[assignment]
         # (a, b, c)[1] -> b : arises from `x, y, z = helper()` once helper's returned tuple is inlined
